@@ -175,7 +175,7 @@ pub fn via_session(out: &mut Out, networks: usize, burst: usize) {
 /// `signals`: that many signals are published to the session before it first runs (more than the signal queue holds: the
 /// session's subscriber has been overrun when it starts reading its client's frames - it skips, it does not hang up)
 pub fn via_session_sig(out: &mut Out, networks: usize, burst: usize, signals: usize) {
-    let (i, o) = via_session_line(networks, burst, signals, false);
+    let (i, o) = via_session_line(networks, burst, signals, 0);
     out.case(&i, &o, true);
     out.count("commands through a real client session");
 }
@@ -184,9 +184,15 @@ pub fn via_session_sig(out: &mut Out, networks: usize, burst: usize, signals: us
 /// aligned) sits between the client's commands - the commands after it are commands all the same.  The whole scenario runs on
 /// its own thread with a 20 s limit (a session that spins on the rejected header would never give the executor back).
 pub fn via_session_bad_header(out: &mut Out, burst: usize) {
+    via_session_between(out, burst, 1)
+}
+
+/// `between`: 1 = the rejected header; n > 1 = a frame of an unknown type with an n-byte payload (skipped whole, whatever its
+/// size up to the payload limit) sits after the client's first command
+pub fn via_session_between(out: &mut Out, burst: usize, between: usize) {
     let (tx, rx) = std::sync::mpsc::channel();
     std::thread::spawn(move || {
-        let _ = tx.send(via_session_line(1, burst, 0, true));
+        let _ = tx.send(via_session_line(1, burst, 0, between));
     });
     match rx.recv_timeout(Duration::from_secs(20)) {
         Ok((i, o)) => out.case(&i, &o, true),
@@ -200,7 +206,7 @@ pub fn via_session_bad_header(out: &mut Out, burst: usize) {
     out.count("a rejected header between a client's commands");
 }
 
-fn via_session_line(networks: usize, burst: usize, signals: usize, bad_header: bool) -> (String, String) {
+fn via_session_line(networks: usize, burst: usize, signals: usize, between: usize) -> (String, String) {
     let rt = tokio::runtime::Builder::new_current_thread().enable_all().build().unwrap();
     let shared = Arc::new(Shared {
         handled: Mutex::new(vec![vec![]; networks]),
@@ -227,8 +233,12 @@ fn via_session_line(networks: usize, burst: usize, signals: usize, bad_header: b
             let vb = v.to_be_bytes();
             bytes.extend(crate::sess::frame(0x20, &[0x05, vb[0], vb[1]]));
             toks.push(format!("s:{}", v));
-            if bad_header && i == 0 {
+            if between == 1 && i == 0 {
                 bytes.extend_from_slice(&[b'L', b'X', b'R', 3, 0x20, 0, 0, 0, 0, 0]);
+            } else if between > 1 && i == 0 {
+                // a frame of a type the session does not know, `between` payload bytes (each one a would-be header start)
+                let body: Vec<u8> = b"LXR\x03\x20\x00\x03\x00\x00\x00".iter().cycle().take(between).cloned().collect();
+                bytes.extend(crate::sess::frame(0x7E, &body));
             }
         }
         bytes.extend(crate::sess::frame(0x20, &[0x00]));
@@ -334,6 +344,18 @@ pub fn via_server(out: &mut Out, clients: usize) {
     out.count(&format!("{} clients connected at once through the real server", clients));
 }
 
+/// commands accepted immediately after the networks were scheduled, before any of their tasks has been polled
+pub fn early(out: &mut Out) {
+    for networks in 1..=2usize {
+        for burst in [1usize, 3, 16] {
+            let mut acts = vec![Act::Send; burst];
+            acts.push(Act::Release(0, 1));
+            scenario_at(out, networks, &acts, true, true);
+            out.count("commands right after scheduling");
+        }
+    }
+}
+
 pub fn run(out: &mut Out, tier: &str, rng: &mut Rng) {
     let thorough = tier == "thorough";
     for clients in [1usize, 2, 3, 5] {
@@ -341,6 +363,10 @@ pub fn run(out: &mut Out, tier: &str, rng: &mut Rng) {
     }
     for burst in [2usize, 5] {
         via_session_bad_header(out, burst);
+    }
+    // a frame the session skips (unknown type), of every size class up to the payload limit, between the commands
+    for between in [2usize, 255, 256, 257, 300, 511, 513, 700, 1023, 1024] {
+        via_session_between(out, 4, between);
     }
     // a client whose session has been overrun by published signals is still a producer: all its commands are delivered
     for (burst, signals) in [(3usize, 17usize), (8, 17), (8, 40), (12, 16), (12, 100)] {
